@@ -25,7 +25,7 @@ func runC17(a *A) {
 	a.Rule("flow/trigger-evaluated-every-row", 1, func() { a.ruleTriggerEvaluatedEveryRow() })
 	a.Rule("flow/evicted-result-counted", 1, func() { a.ruleEvictedResultCounted(a.Named("window", "GlobalWindow")) })
 	a.Rule("flow/fire-and-purge", 5, func() {
-		fn := a.Method("window", "GlobalWindow", "processRow")
+		entry := a.Method("window", "GlobalWindow", "processRow")
 		W := a.Named("window", "GlobalWindow")
 		groups := a.FieldOf(W, "groups")
 		muF := a.FieldOf(W, "mu")
@@ -38,18 +38,38 @@ func runC17(a *A) {
 			c := staticCallee(in)
 			return c != nil && (c.Name() == "feedAggs" || c.Name() == "feedTriggerAggs")
 		}
-		n := a.ruleDominatedBy(fn, fname(fn)+"#feed-before-test", isFeed, isCall(sf), "the row is fed to the group's aggregates before the predicate is evaluated", "shouldFire can run before the row was fed to the aggregates: the predicate would be evaluated on stale values")
+		direct := func(f *ssa.Function, pred func(ssa.Instruction) bool) []ssa.Instruction {
+			var out []ssa.Instruction
+			allInstrs(f, func(in ssa.Instruction) {
+				if _, isDefer := in.(*ssa.Defer); !isDefer && pred(in) {
+					out = append(out, in)
+				}
+			})
+			return out
+		}
+		// the host of the locked update: processRow itself, or - when the update was moved into a frame of its
+		// own that processRow calls (a helper unknown to the inventory, kept as a call because it defers the
+		// unlock) - that helper
+		fn := entry
+		var hostCall *ssa.Call
+		if len(direct(entry, isCall(sf))) == 0 {
+			allInstrs(entry, func(in ssa.Instruction) {
+				c, ok := in.(*ssa.Call)
+				if !ok {
+					return
+				}
+				if h := c.Call.StaticCallee(); h != nil && isNewFunc(h) && len(direct(h, isCall(sf))) > 0 {
+					fn, hostCall = h, c
+				}
+			})
+		}
+		n := a.ruleDominatedBy(fn, fname(entry)+"#feed-before-test", isFeed, isCall(sf), "the row is fed to the group's aggregates before the predicate is evaluated", "shouldFire can run before the row was fed to the aggregates: the predicate would be evaluated on stale values")
 		if n == 0 {
-			a.Bad(fname(fn)+"#feed-before-test", fn.Pos(), "processRow does not call shouldFire")
+			a.Bad(fname(entry)+"#feed-before-test", entry.Pos(), "processRow does not call shouldFire")
 		}
 		// both feeds present
-		cnt := 0
-		allInstrs(fn, func(in ssa.Instruction) {
-			if isFeed(in) {
-				cnt++
-			}
-		})
-		a.Check(cnt >= 2, fname(fn)+"#feeds", fn.Pos(), "output and trigger-only aggregates are both fed", "processRow no longer feeds both the output and the trigger-only aggregates")
+		cnt := len(direct(fn, isFeed))
+		a.Check(cnt >= 2, fname(entry)+"#feeds", entry.Pos(), "output and trigger-only aggregates are both fed", "processRow no longer feeds both the output and the trigger-only aggregates")
 		var gsKey ssa.Value
 		allInstrs(fn, func(in ssa.Instruction) {
 			if lk, ok := in.(*ssa.Lookup); ok {
@@ -77,40 +97,111 @@ func runC17(a *A) {
 				}
 			}
 		})
-		for _, d := range callsTo(fn, deliver) {
-			a.Check(guardedByCall(d.Block(), func(f *ssa.Function) bool { return f == sf }, true), fname(fn)+"#deliver-only-when-fired", d.Pos(),
+		isPurge := func(in ssa.Instruction) bool {
+			c, ok := in.(*ssa.Call)
+			if !ok {
+				return false
+			}
+			cc, ok := isBuiltinCall(c, "delete")
+			if !ok {
+				return false
+			}
+			t := TermOf(cc.Args[0], nil)
+			return t.Kind == "field" && t.Field == groups && cc.Args[1] == gsKey
+		}
+		// firedFlags: the boolean results of the host that are true only on the true edge of shouldFire and
+		// only after the purge (every value the result can take: false, or true at a point that shouldFire's true
+		// edge guards and the delete dominates)
+		firedFlags := map[int]bool{}
+		var purgeIn ssa.Instruction
+		if hostCall != nil {
+			for k := 0; k < fn.Signature.Results().Len(); k++ {
+				if !isBool(fn.Signature.Results().At(k).Type()) {
+					continue
+				}
+				ok, some := true, false
+				judge := func(v ssa.Value, at *ssa.BasicBlock, atIn ssa.Instruction) {
+					for _, l := range phiLeaves(v) {
+						if b, isK := constBool(l); isK && !b {
+							continue
+						}
+						some = true
+						if b, isK := constBool(l); !isK || !b {
+							ok = false
+							continue
+						}
+						if !guardedByCall(at, func(f *ssa.Function) bool { return f == sf }, true) {
+							ok = false
+						}
+						purged := false
+						for _, pin := range direct(fn, isPurge) {
+							if dominatesInstr(pin, atIn) {
+								purged, purgeIn = true, pin
+							}
+						}
+						if !purged {
+							ok = false
+						}
+					}
+				}
+				for _, b := range fn.Blocks {
+					ret, isRet := b.Instrs[len(b.Instrs)-1].(*ssa.Return)
+					if !isRet || b == fn.Recover || k >= len(ret.Results) {
+						continue
+					}
+					if ld, isLd := ret.Results[k].(*ssa.UnOp); isLd && ld.Op == token.MUL {
+						if al, isAl := ld.X.(*ssa.Alloc); isAl {
+							for _, ref := range *al.Referrers() {
+								if st, isSt := ref.(*ssa.Store); isSt && st.Addr == ssa.Value(al) {
+									judge(st.Val, st.Block(), st)
+								}
+							}
+							continue
+						}
+					}
+					judge(ret.Results[k], b, ret)
+				}
+				if ok && some {
+					firedFlags[k] = true
+				}
+			}
+		}
+		for _, d := range direct(entry, isCall(deliver)) {
+			if hostCall != nil {
+				// delivered only where a fired flag of the host's call was found true
+				okFlag := guardedByValue(d.Block(), func(v ssa.Value) bool {
+					ex, isEx := v.(*ssa.Extract)
+					return isEx && ex.Tuple == ssa.Value(hostCall) && firedFlags[ex.Index]
+				}, true)
+				a.Check(okFlag, fname(entry)+"#deliver-only-when-fired", d.Pos(),
+					"a result is delivered only where "+fn.Name()+" reported a fired group, which it does only on the true edge of shouldFire", "a result can be delivered although the TRIGGER WHEN predicate is false")
+				a.Check(okFlag && purgeIn != nil, fname(entry)+"#purge-before-deliver", d.Pos(), "the fired group is deleted (under the key it was looked up with) before "+fn.Name()+" reports it fired, hence before delivery", "delivery is not preceded by delete(gw.groups, key) with the group's own key: the group would keep its aggregates and fire again")
+				continue
+			}
+			a.Check(guardedByCall(d.Block(), func(f *ssa.Function) bool { return f == sf }, true), fname(entry)+"#deliver-only-when-fired", d.Pos(),
 				"a result is delivered only on the true edge of shouldFire", "a result can be delivered although the TRIGGER WHEN predicate is false")
 			// a delete(gw.groups, key) dominates the deliver, with the group's own key, and precedes the unlock
 			okDel := false
-			var delIn ssa.Instruction
-			allInstrs(fn, func(in ssa.Instruction) {
+			for _, pin := range direct(fn, isPurge) {
+				if dominatesInstr(pin, d) {
+					okDel, purgeIn = true, pin
+				}
+			}
+			a.Check(okDel, fname(entry)+"#purge-before-deliver", d.Pos(), "the fired group is deleted (under the key it was looked up with) before delivery", "delivery is not preceded by delete(gw.groups, key) with the group's own key: the group would keep its aggregates and fire again")
+		}
+		if purgeIn != nil && len(direct(fn, isCall(sf))) > 0 {
+			delIn := purgeIn
+			// no Unlock between shouldFire and the delete
+			hit := reachableAfter(direct(fn, isCall(sf))[0], func(in ssa.Instruction) bool {
 				c, ok := in.(*ssa.Call)
 				if !ok {
-					return
+					return false
 				}
-				cc, ok := isBuiltinCall(c, "delete")
-				if !ok {
-					return
-				}
-				if t := TermOf(cc.Args[0], nil); t.Kind == "field" && t.Field == groups && dominatesInstr(in, d) && cc.Args[1] == gsKey {
-					okDel = true
-					delIn = in
-				}
-			})
-			a.Check(okDel, fname(fn)+"#purge-before-deliver", d.Pos(), "the fired group is deleted (under the key it was looked up with) before delivery", "delivery is not preceded by delete(gw.groups, key) with the group's own key: the group would keep its aggregates and fire again")
-			if delIn != nil {
-				// no Unlock between shouldFire and the delete
-				hit := reachableAfter(callsTo(fn, sf)[0], func(in ssa.Instruction) bool {
-					c, ok := in.(*ssa.Call)
-					if !ok {
-						return false
-					}
-					cal := c.Call.StaticCallee()
-					return cal != nil && cal.Name() == "Unlock" && len(c.Call.Args) > 0 && fieldAddrIs(c.Call.Args[0], muF)
-				}, func(in ssa.Instruction) bool { return in == delIn || (staticCallee(in) == sf) })
-				// paths that do not fire (return with deferred unlock) are fine: only explicit Unlock calls count
-				a.Check(hit == nil, fname(fn)+"#purge-under-lock", delIn.Pos(), "the lock is not released between the predicate test and the purge", "the lock is released between shouldFire and delete(gw.groups,key): a concurrent row of the same group could be lost or the group fire twice")
-			}
+				cal := c.Call.StaticCallee()
+				return cal != nil && cal.Name() == "Unlock" && len(c.Call.Args) > 0 && fieldAddrIs(c.Call.Args[0], muF)
+			}, func(in ssa.Instruction) bool { return in == delIn || (staticCallee(in) == sf) })
+			// paths that do not fire (return with deferred unlock) are fine: only explicit Unlock calls count
+			a.Check(hit == nil, fname(entry)+"#purge-under-lock", delIn.Pos(), "the lock is not released between the predicate test and the purge", "the lock is released between shouldFire and delete(gw.groups,key): a concurrent row of the same group could be lost or the group fire twice")
 		}
 	})
 	a.Rule("aggstate/fresh-group", 2, func() {
